@@ -108,7 +108,7 @@ Proof. intros H. exact (corrupt_iw0_l _ _ _ _ _ H (stream_range _ _) (seeded_cl 
 Lemma extreme_seeded_l seed t : corrupt_seeded 0 D53 seed t = strip t.
 Proof. exact (corrupt_extreme_l _ _ _ (stream_range _ _) (seeded_cl 0 D53 seed t)). Qed.
 
-(** code-point mode, string level: no hypothesis but "the string is whitespace-clean" *)
+(** code-point mode, string level: no premise but "the string is whitespace-clean" *)
 Lemma cp_seeded_l iw dw seed s : M11.cleansb s = true ->
   let out := corrupt_seeded iw dw seed (singletons s) in
   let c := concat out in
